@@ -47,7 +47,7 @@ func c17Headers(cfg c17Cfg, other c17Cfg, big bool) []string {
 		// wrong secrets
 		"Basic " + b64(u+":"), "Basic " + b64(":"+p), "Basic " + b64(u), "Basic " + b64(":"), "Basic " + b64(u+":"+p+"x"), "Basic " + b64(u+":x"+p),
 		"Basic " + b64(u+"x:"+p), "Basic " + b64(strings.ToUpper(u)+":"+p), "Basic " + b64(u+":"+strings.ToUpper(p)+"!"), "Basic " + b64(p+":"+u),
-		"Basic " + b64(u+":"+p)[:len(good)-2], "Basic " + good + "AA", "Basic !!!notbase64!!!", "Basic " + b64(u+" :"+p), "Basic " + b64(u+":"+p+":"+p),
+		"Basic " + b64(u + ":" + p)[:len(good)-2], "Basic " + good + "AA", "Basic !!!notbase64!!!", "Basic " + b64(u+" :"+p), "Basic " + b64(u+":"+p+":"+p),
 		"Basic " + base64.StdEncoding.EncodeToString([]byte{0xff, 0xfe, ':', 0xfd}),
 		"Bearer " + t + "x", "Bearer x" + t, "Bearer wrong", "Bearer " + strings.ToUpper(t) + "_", "Bearer " + b64(t), "Bearer null", "Bearer undefined", "Bearer ,",
 		"Bearer " + u + ":" + p, "Bearer " + p, "Basic " + b64("Bearer:"+t), "Negotiate abc", "Digest username=\"" + u + "\"",
@@ -334,7 +334,7 @@ func init() {
 			return []core.Pass{{Name: "main", Mode: "controlled", Shards: 16, Timeout: 30 * time.Minute}}
 		},
 		Exhaustive: func(tier string) bool { return true },
-		Rule: "Complete grid (exhaustive over the grid, not over all strings): {none, basic, token, both} x 7 secret triples (31 in thorough) incl. empty, one-character, token==user, colon-bearing and non-ASCII secrets x {no base path, /bd} x 7 methods x 15 path shapes (with and without the base path) x ~75 Authorization shapes (absent, empty, scheme only, standard forms, case/spacing/tab variants, trailing junk, secret under the other scheme, bare secret, truncated/extended/wrong-case/swapped/partially-correct credentials, bad base64, other encodings, other schemes), through middleware.Setup + SetupGlobalMiddleware(sentinel) with httptest. Each request is classified by computed predicates, not by construction: must-pass (no auth, or exactly `Basic base64(user:password)` / `Bearer token`), must-reject (no whitespace/comma-separated field equals the token and none decodes, in any base64 alphabet, to user:password) => 401 and sentinel not reached, either (secret present in non-standard form; accepted forms are listed in evidence), non-API path => sentinel not reached. Second harness: the assembled go-swagger API over a real store; every must-reject header x 7 mutating/reading requests must be 401 with the byte-level dump of the DAG/history/flag directories unchanged; positive control with valid credentials. distinct_nontrivial = number of distinct (config, method, path, header) grid points, counted by enumeration.",
+		Rule:       "Complete grid (exhaustive over the grid, not over all strings): {none, basic, token, both} x 7 secret triples (31 in thorough) incl. empty, one-character, token==user, colon-bearing and non-ASCII secrets x {no base path, /bd} x 7 methods x 15 path shapes (with and without the base path) x ~75 Authorization shapes (absent, empty, scheme only, standard forms, case/spacing/tab variants, trailing junk, secret under the other scheme, bare secret, truncated/extended/wrong-case/swapped/partially-correct credentials, bad base64, other encodings, other schemes), through middleware.Setup + SetupGlobalMiddleware(sentinel) with httptest. Each request is classified by computed predicates, not by construction: must-pass (no auth, or exactly `Basic base64(user:password)` / `Bearer token`), must-reject (no whitespace/comma-separated field equals the token and none decodes, in any base64 alphabet, to user:password) => 401 and sentinel not reached, either (secret present in non-standard form; accepted forms are listed in evidence), non-API path => sentinel not reached. Second harness: the assembled go-swagger API over a real store; every must-reject header x 7 mutating/reading requests must be 401 with the byte-level dump of the DAG/history/flag directories unchanged; positive control with valid credentials. distinct_nontrivial = number of distinct (config, method, path, header) grid points, counted by enumeration.",
 		Assumptions: []string{"the outcome for a correct secret presented in a non-standard form is not judged (the statement says 'only if')",
 			"OPTIONS is answered by the CORS layer: for must-pass only 'not 401' is demanded"}})
 }
